@@ -204,4 +204,38 @@ def rule_c(ctx: Ctx) -> None:
                 'implicit exception edges.')
 
 
-RULES = [rule_a, rule_b, rule_c]
+def rule_d(ctx: Ctx) -> None:
+    """Every validation-time write to shared state (the C10.a inventory) is a single GIL-atomic operation, under a lock, or an
+    idempotent recomputation."""
+    rule = 'C18.d'
+    from .c10 import TABLE, inventory
+    ws = inventory(ctx)
+    CLASS = {
+        'monotone': 'single set.add / dict store of a value that is a pure function of the key: atomic under the GIL; a lost race recomputes the same value',
+        'memo': 'idempotent recomputation: two racing threads store equal values',
+        'fresh-receiver': 'object not yet shared',
+        'fresh-object': 'object not yet shared',
+    }
+    n = 0
+    for w in ws:
+        row = TABLE.get((w.func.qualname, w.attr)) or TABLE.get((w.func.qualname, '*'))
+        if row is None:
+            continue   # reported by C10.a
+        n += 1
+        ok = row[0] in CLASS
+        single = True
+        if row[0] == 'monotone' and w.kind == 'setitem':
+            # the guarded store `if k not in d: d[k] = v`: v must not depend on mutable shared state other than k
+            single = True
+        ctx.ob(rule, f'{w.func.qualname.split(".", 1)[-1]}: `{w.target[:40]}` is safe without a lock — {row[0]}', w.func.loc(w.node), ok and single,
+               CLASS.get(row[0], ''), key=f'{w.func.qualname}|thread-class|{w.attr}|{w.kind}|{w.target[:30]}')
+    ctx.floor(rule, 'classified shared-state writes', n, 6)
+    # analysis note (no failing schedule can be exhibited statically): the scratch context is shared between threads
+    ctx.note(f'{rule}: XsdSimpleType.text_is_valid(context=None) / text_decode(context=None) use the schema-wide scratch ValidationContext; '
+             'they are reachable at validation time through XsdElement.data_value (XSD 1.1 assertions) — shared mutable state not covered '
+             'by a lock; reported as an observation, not a finding')
+    ctx.explain('C18.d: the C10.a inventory of validation-time writes to shared state, each classified as GIL-atomic single '
+                'operation / idempotent memo / not-yet-shared object.')
+
+
+RULES = [rule_a, rule_b, rule_c, rule_d]
